@@ -230,7 +230,27 @@ func Eval(c Case) (problems []string, stmts []string) {
 	for _, ch := range plan.Changes {
 		stmts = append(stmts, ch.Cmd)
 	}
-	return replay(c, stmts), stmts
+	problems = replay(c, stmts)
+	// the same change set planned again (what `schema apply` does: once for the summary, once to
+	// apply) must give the same, equally valid plan - planning must not consume its input.
+	plan2, err := planner.PlanChanges(context.Background(), "p", changes, func(o *migrate.PlanOptions) {
+		o.Mode = migrate.PlanMode(c.Mode)
+		o.SchemaQualifier = new(string)
+	})
+	if err != nil {
+		return append(problems, "planning the same change set a second time failed: "+err.Error()), stmts
+	}
+	var stmts2 []string
+	for _, ch := range plan2.Changes {
+		stmts2 = append(stmts2, ch.Cmd)
+	}
+	if strings.Join(stmts, "\n") != strings.Join(stmts2, "\n") {
+		problems = append(problems, fmt.Sprintf("planning the same change set a second time gives a different plan: %q", stmts2))
+		for _, p := range replay(c, stmts2) {
+			problems = append(problems, "second plan: "+p)
+		}
+	}
+	return problems, stmts
 }
 
 func splits(n int, f func([]int)) {
@@ -243,7 +263,7 @@ func splits(n int, f func([]int)) {
 
 func Run(r *report.Run) {
 	maxFull := 3
-	r.Rule = "every directed graph with self loops on n tables (n<=3: all 2^(n*n) graphs x all 3^n splits of the tables into kept/created/dropped x 3 modes for edges between kept tables {unchanged, added, dropped} x {MySQL, PostgreSQL} x plan mode {unset, deferred}; thorough adds n=4: all 65536 graphs x all 81 splits with kept-kept edges added, x 2 dialects, plan mode unset); changes from the real differ, plans from the real planners; each plan's statements are replayed from their text by a reference catalogue of existing tables and live foreign keys; non-trivial = case with a non-empty plan; distinct by construction"
+	r.Rule = "every directed graph with self loops on n tables (n<=3: all 2^(n*n) graphs x all 3^n splits of the tables into kept/created/dropped x 3 modes for edges between kept tables {unchanged, added, dropped} x {MySQL, PostgreSQL} x plan mode {unset, deferred}; thorough adds n=4: all 65536 graphs x all 81 splits with kept-kept edges added, x 2 dialects, plan mode unset); changes from the real differ, plans from the real planners, every change set planned twice (identical plans required); each plan's statements are replayed from their text by a reference catalogue of existing tables and live foreign keys; non-trivial = case with a non-empty plan; distinct by construction"
 	r.Assumptions = []string{
 		"statement text is parsed by regular expressions over names the generator chose (t<i>, fk_<i>_<j>)",
 		"random larger graphs are not claimed (sampling is a different family)",
